@@ -24,8 +24,8 @@ from simkit.world import World
 PROP = "C20"
 LEVEL = "exploration"
 TIERS = {
-    "quick": dict(runs=1000, timeout=300, max_exchanges=10, shrink_seconds=120, shrink_steps=250),
-    "thorough": dict(runs=25000, timeout=600, max_exchanges=30, shrink_seconds=400, shrink_steps=800),
+    "quick": dict(runs=1000, wall_cap=240, timeout=300, max_exchanges=10, shrink_seconds=120, shrink_steps=250),
+    "thorough": dict(runs=25000, wall_cap=2700, timeout=600, max_exchanges=30, shrink_seconds=400, shrink_steps=800),
 }
 
 MODES = ["server", "diffweb", "difftool", "mergeweb", "mergeweb_out", "mergetool", "diffweb_refs"]
